@@ -52,9 +52,12 @@ type Policy interface {
 type Sched struct {
 	Quantum    time.Duration // virtual time step (default 1ms)
 	MaxGateAge time.Duration // a gated op is never kept waiting longer than this in virtual time (default 5ms)
-	Policy     Policy
-	Rng        *rand.Rand
-	MaxSteps   int // safety bound on scheduling steps (default 2_000_000)
+	// CapExempt, if set, names operations to which MaxGateAge does not apply (a policy which keeps one actor waiting for an
+	// event rather than for a time: a slow process, nothing else)
+	CapExempt func(p *Pending) bool
+	Policy    Policy
+	Rng       *rand.Rand
+	MaxSteps  int // safety bound on scheduling steps (default 2_000_000)
 
 	mu        sync.Mutex
 	pending   []*Pending
@@ -140,7 +143,7 @@ func (s *Sched) Run(scenario func()) {
 		now := time.Now()
 		canAdvance := true
 		for _, p := range pend {
-			if now.Sub(p.Since) >= s.MaxGateAge {
+			if now.Sub(p.Since) >= s.MaxGateAge && !(s.CapExempt != nil && s.CapExempt(p)) {
 				canAdvance = false
 				break
 			}
@@ -309,6 +312,76 @@ func (d Delay) Choose(s *Sched, pend []*Pending, canAdvance bool) int {
 		}
 	}
 	return best
+}
+
+// Straddle keeps actor Victim waiting before its op number AtN until an event has happened (Count grows beyond its value
+// at the beginning of the wait: e.g. the lock has been created anew or removed by somebody) and runs that op first
+// thereafter: whatever the victim had read before the wait and what it reads after it belong to different states of the
+// world. Everything else runs oldest first. The wait ends after MaxHold of virtual time at the latest.
+type Straddle struct {
+	Victim  string
+	AtN     int
+	MaxHold time.Duration
+	Count   func() int
+	// Eligible, if set, is asked once, when the victim's operation reaches the gate: false = the operation is kept waiting
+	// only as long as MaxGateAge allows, like any other (an actor whose lock or heartbeat depends on it must not be stalled)
+	Eligible func(p *Pending) bool
+	eligible bool
+	c0       int
+	holding  bool
+	Done     bool // the held op has been let go
+	Fired    bool // ... because the event happened (not because MaxHold elapsed)
+}
+
+// Exempt is the CapExempt of the policy.
+func (d *Straddle) Exempt(p *Pending) bool {
+	return !d.Done && d.holding && d.eligible && p.Actor == d.Victim && p.N == d.AtN
+}
+
+func (d *Straddle) Choose(s *Sched, pend []*Pending, canAdvance bool) int {
+	now := time.Now()
+	v := -1
+	if !d.Done {
+		for i, p := range pend {
+			if p.Actor == d.Victim && p.N == d.AtN {
+				v = i
+			}
+		}
+	}
+	if v >= 0 {
+		if !d.holding {
+			d.holding, d.c0 = true, d.Count()
+			d.eligible = d.Eligible == nil || d.Eligible(pend[v])
+		}
+		if !d.eligible && now.Sub(pend[v].Since) >= s.MaxGateAge {
+			d.Done = true
+			return v
+		}
+		if c := d.Count(); c > d.c0 || now.Sub(pend[v].Since) >= d.MaxHold {
+			d.Done, d.Fired = true, c > d.c0
+			return v
+		}
+	}
+	best := -1
+	for i, p := range pend {
+		if i == v {
+			continue
+		}
+		if best < 0 || p.Seq < pend[best].Seq {
+			best = i
+		}
+	}
+	if best >= 0 {
+		return best
+	}
+	if canAdvance {
+		return -1
+	}
+	if v >= 0 {
+		d.Done = true
+		return v
+	}
+	return 0
 }
 
 // ---------------------------------------------------------------------------------------------
